@@ -192,6 +192,108 @@ def check_count_guards(rep, F):
                 why = "constructs a %s and discards it (missing 'throw')" % discarded[0]["type"].split("::")[-1] if discarded else "does not throw"
                 rep.violation("R8.2", key, "%s: the branch taken when the file's atom count differs from the topology %s: the frame is used anyway"
                               % (f.qname, why), f.loc(n))
+    # path form: in a reader function that carries a count guard, no bead is written on a path that passes none of the throwing guards
+    # (a guard that exists for one sub-format only - e.g. DL_POLY HISTORY but not CONFIG - leaves the other sub-format unchecked)
+    for f in F.funcs:
+        base = os.path.basename(f.file)
+        if base not in wanted or f.j["template"] == "pattern" or "cfg" not in f.j:
+            continue
+        guards = []
+        for n in f.walk():
+            if n.get("k") != "if":
+                continue
+            cmp_ = [x for x in walk(n["cond"]) if x.get("k") == "binop" and x["op"] in ("!=", "==") and
+                    any(y.get("k") == "mcall" and (y.get("callee") or "").endswith(("Topology::BeadCount", "XYZReader::getContainerSize"))
+                        and yy_direct(x, y) for y in walk(x))]
+            branch = (n["then"] if cmp_[0]["op"] == "!=" else n.get("else")) if cmp_ else None
+            if cmp_ and branch and any(x.get("k") == "throw" for x in walk(branch)):
+                guards.append(cmp_[0])
+        if not guards:
+            continue
+        g = CFG(f)
+        writes = [n for n in f.walk() if n.get("k") == "mcall" and (n.get("callee") or "").endswith(("Bead::setPos", "Bead::setVel", "Bead::setF")) and n["id"] in g.where]
+        if not writes:
+            continue
+        removed = []
+        for c in guards:
+            for b, neg in g.cond_blocks(c["id"]):
+                passes = (c["op"] == "==")
+                removed.append((b, 0 if (passes != neg) else 1))
+        if not removed:
+            continue
+        rem = set(removed)
+        exits_ = set(g.exit_blocks(normal=True))
+        # boolean member flags the function branches on (first_frame_, isConfig_, topology_): decided case by case with consistent values,
+        # so that e.g. "not the first frame of a CONFIG file" is followed to its 'return false' instead of being mixed with other cases
+        flags = []
+        for b in g.blocks:
+            c = g.cond_node(b)
+            while c is not None and unwrap(c).get("k") == "unop" and unwrap(c).get("op") == "!":
+                c = unwrap(c)["sub"]
+            if c is not None and unwrap(c).get("k") == "member" and "bool" in (unwrap(c).get("type") or "bool"):
+                nm = unwrap(c).get("fname") or unwrap(c).get("field")
+                if nm and nm not in flags:
+                    flags.append(nm)
+        flags = flags[:5]
+
+        gvars = set()
+        for c in guards:
+            for side in (c["lhs"], c["rhs"]):
+                if re.match(r"^[A-Za-z_]\w*$", show(unwrap(side))):
+                    gvars.add(show(unwrap(side)))
+
+        def succs_under(b, case, post_write=False):
+            truth = None
+            if len(g.succs[b]) == 2:
+                c = g.cond_node(b)
+                if c is not None:
+                    c = unwrap(c)
+                    neg = False
+                    while c.get("k") == "unop" and c.get("op") == "!":
+                        c = unwrap(c["sub"])
+                        neg = not neg
+                    while c.get("k") == "binop" and c.get("op") in ("&&", "||"):
+                        c = unwrap(c["rhs"])          # the block deciding A && B evaluates its last operand
+                    nm = (c.get("fname") or c.get("field")) if c.get("k") == "member" else None
+                    if nm in case:
+                        truth = (case[nm] != neg)
+                    # the counter compared with BeadCount counts the beads written: it is positive once a bead was written
+                    if post_write and c.get("k") == "binop" and c.get("op") == ">" and show(unwrap(c["lhs"])) in gvars and show(unwrap(c["rhs"])) == "0":
+                        truth = (True != neg)
+            for i_, s_ in enumerate(g.succs[b]):
+                if s_ is None or (b, i_) in rem or (truth is not None and (i_ == 0) != truth):
+                    continue
+                yield s_
+
+        def closure(b0, case, post_write=False):
+            seen, todo = {b0}, [b0]
+            while todo:
+                b = todo.pop()
+                for s_ in succs_under(b, case, post_write):
+                    if s_ not in seen:
+                        seen.add(s_)
+                        todo.append(s_)
+            return seen
+        bad, bad_case = [], None
+        import itertools as _it
+        for vals in _it.product((True, False), repeat=len(flags)):
+            case = dict(zip(flags, vals))
+            if case.get("topology_") is True:
+                continue          # the reader is creating the topology itself from this file: there is no bead count to compare with
+            reach = closure(g.entry, case)
+            for w in writes:
+                wb = g.where[w["id"]][0]
+                # unguarded: reachable, and the function can then return normally, never taking the failing edge of a guard
+                if wb in reach and (closure(wb, case, True) & exits_):
+                    bad.append(w)
+                    bad_case = case
+                    break
+            if bad:
+                break
+        rep.check(not bad, "R8.2", "count-guard-path|%s|%s" % (base, f.qname.split("::")[-1]), "every path that writes a bead and returns normally passes a throwing atom-count guard (cases over %s)" % flags,
+                  "%s: %s at line %s lies on a path from entry to a normal return that passes none of the %d atom-count guard(s) of this function (case %s): there a frame whose atom count "
+                  "differs from the topology is used (beads overwritten partially, or indexed past the end)" % (f.qname, show(bad[0])[:60] if bad else "", bad[0].get("line") if bad else "", len(guards), bad_case),
+                  f.loc(bad[0]) if bad else f.loc())
     for base, want in wanted.items():
         if found[base] < want:
             rep.broken("R8.2", "%s: only %d atom-count comparison(s) located, hand-confirmed floor is %d" % (base, found[base], want))
